@@ -13,6 +13,8 @@ kinds = Counter(); ex = {}; tot = [0]
 @settings(max_examples=n, database=None, deadline=None, phases=[Phase.generate], suppress_health_check=list(HealthCheck))
 @given(prop.strategy("quick"))
 def t(case):
+    import faulthandler; faulthandler.dump_traceback_later(120, exit=True)
+    json.dump(case, open('/tmp/survey_current_case.json', 'w'))
     out = runner.run_case(prop, case)
     tot[0] += 1
     if not out.ok:
@@ -27,7 +29,10 @@ def t(case):
             ex[key] = (size, case, out.detail)
 t()
 print("total", tot[0], "failures", sum(kinds.values()))
-for k, v in kinds.most_common():
+os.makedirs("/tmp/survey_dump", exist_ok=True)
+for i, (k, v) in enumerate(kinds.most_common()):
     print(v, k)
+    json.dump({"property": pid, "case": ex[k][1], "kind": k, "detail": ex[k][2], "features": [], "seed": seed, "tier": "quick"},
+              open(f"/tmp/survey_dump/{pid}_{i}.json", "w"))
     r = prop.render(ex[k][1]) if hasattr(prop, "render") else ex[k][1]
     print("    ", json.dumps({kk: r[kk] for kk in r if kk in ("cond","select","doms","vars","prelude")}) if isinstance(r, dict) else r, "|", ex[k][2][:200])
